@@ -24,6 +24,7 @@ FixedDevs == {
     "scope_check_first_def",    \* resolver.rs:1673 scope check compared with definitions[dep].first() (fixed 18e3410)
     "cycle_hash_order_roots",   \* resolver.rs:1533 DFS roots iterated a randomly seeded HashMap (fixed f0d21d2)
     "version_only_on_add",      \* mod.rs:155 / analyzer.rs:273 version bumped only when a def is recorded (fixed e7e7c04)
+    "close_keeps_version",      \* mod.rs:283 cleanup_file_cache (did_close) left definitions_version alone although readers now see the disk text (fixed, see KNOWN_FINDINGS)
     "unused_autouse_per_def"    \* cli.rs:466 autouse read from every definition of a (file, name) entry, not from its last one (fixed, see KNOWN_FINDINGS)
 }
 
@@ -148,6 +149,11 @@ DropCaches(ix, f) ==
     [ix EXCEPT !.cached[f] = NoMod,
                !.availC[f] = [ver |-> 0 - 1, val |-> <<>>],
                !.impC[f] = [ver |-> 0 - 1, mod |-> NoMod, val |-> {}]]
+\* did_close -> cleanup_file_cache (mod.rs:283): the document's cached text is dropped, so every reader falls back to the file ON
+\* DISK -- which differs from the buffer when the edits were never saved.  Deviation close_keeps_version: the version stamp that
+\* validates OTHER files' memoised answers (available fixtures, imported fixtures, cycles) does not move.
+CloseFn(ix, D, f) ==
+    IF "close_keeps_version" \in D THEN DropCaches(ix, f) ELSE [DropCaches(ix, f) EXCEPT !.version = @ + 1]
 RECURSIVE DropAll(_, _)
 DropAll(ix, S) == IF S = {} THEN ix ELSE LET f == CHOOSE x \in S : TRUE IN DropAll(DropCaches(ix, f), S \ {f})
 
@@ -195,16 +201,23 @@ ImplCycleNames(ix) == LET E == NameEdges(ix) IN { n \in IndexNames(ix) : n \in R
 ContentOf(ix, f) == IF ix.cached[f] # NoMod THEN ix.cached[f] ELSE ix.disk[f]
 Known(ix, f) == f # NoFile /\ (ix.cached[f] # NoMod \/ ix.disk[f] # NoMod)
 
+(* "the latest syntactically valid content" of f: the current text if it parses, else the text of the last successful    *)
+(* analysis, else -- a document whose FIRST version in this server is unparsable -- what is on disk if that parses          *)
+LastValidOr(ix, f, c) ==
+    IF c.valid THEN c
+    ELSE IF ix.lastOk[f] # NoMod THEN ix.lastOk[f]
+    ELSE IF ix.disk[f] # NoMod /\ ix.disk[f].valid THEN ix.disk[f] ELSE c
+
 (* the workspace as the index currently sees it (for the repaired branches) *)
 SeenWs(ix) == [f \in Files |-> LET c == ContentOf(ix, f) IN
                                 IF c = NoMod THEN Absent
-                                ELSE IF c.valid \/ ix.lastOk[f] = NoMod THEN c ELSE ix.lastOk[f]]
+                                ELSE LastValidOr(ix, f, c)]
 \* the text whose imports get_imported_fixtures reads: the code re-parses the CURRENT text, which
 \* yields nothing while it is unparsable (deviation); the repaired design keeps the last valid one
 EffContent(ix, D, f) ==
     LET c == ContentOf(ix, f) IN
     IF "reexport_from_current_text" \in D \/ c = NoMod THEN c
-    ELSE IF c.valid \/ ix.lastOk[f] = NoMod THEN c ELSE ix.lastOk[f]
+    ELSE LastValidOr(ix, f, c)
 
 (***************************************************************************)
 (* get_imported_fixtures (imports.rs:414-560).  `visited` is ONE mutable   *)
